@@ -210,7 +210,17 @@ pub fn http_reader(url: &str, retries: u32) -> Result<HttpReader, String> {
         .no_proxy()
         .build()
         .map_err(|e| format!("client: {}", e))?;
-    Ok(HttpReader::from_request(client.get(url))
+    // How the request was configured (a generous per-request timeout, a custom header) must
+    // not change how ranges are requested; varied by the URL's port so that runs differ.
+    let variant = url.bytes().fold(0u32, |a, b| a.wrapping_mul(31).wrapping_add(b as u32)) % 3;
+    let mut req = client.get(url);
+    if variant == 1 {
+        req = req.timeout(std::time::Duration::from_secs(600));
+    }
+    if variant == 2 {
+        req = req.header("X-Verif", "1");
+    }
+    Ok(HttpReader::from_request(req)
         .retries(retries)
         .retry_delay(std::time::Duration::from_millis(0)))
 }
